@@ -203,6 +203,9 @@ func (m *Mitm) Applied() (map[int]int, int) {
 	return out, m.contentionsMade
 }
 
+// Base is the zero point of the Ev.T timestamps.
+func (m *Mitm) Base() time.Time { return m.base }
+
 // Closed returns how many TCP generations have ended so far.
 func (m *Mitm) Closed() int { return int(m.closed.Load()) }
 
